@@ -5,6 +5,7 @@ CONSTANTS Powers <- PowersTableBig
           TableSets = {1, 2, 3, 4, 5, 6, 7, 8, 9, 10, 11}
           Pairs = FALSE
           AbsenceAccepted = FALSE
+          RepeatCounts = FALSE
           EmitOn = TRUE
 VIEW View
 CONSTRAINT InitialOnly
